@@ -366,6 +366,17 @@ class KeyedSet(Generic[ItemType, KeyType], MutableSet, KeyedBase):  # pylint: di
         except TypeError:
             pass
 
+    def _from_iterable(self, it):  # pylint: disable=arguments-differ
+        # Used by the `Set` mixins to build the results of `|`, `&`, `-` and `^`.
+        # Results must keep identifying items in the same way as this set.
+        new = type(self)(
+            key=self._key, enforce_item_equivalence=self.enforce_item_equivalence
+        )
+        new._type = self._type
+        for item in it:
+            new.add(item)
+        return new
+
     # Magic methods
 
     def __eq__(self, other):
@@ -396,9 +407,17 @@ class KeyedSet(Generic[ItemType, KeyType], MutableSet, KeyedBase):  # pylint: di
         return self._dict.get(key, default)
 
     def __getitem__(self, key):
-        if key in self._dict:
-            return self._dict[key]
-        item_key = self.key(key)
-        if item_key in self._dict:
-            return self._dict[item_key]
+        # Attempt to look up as a key
+        try:
+            if key in self._dict:
+                return self._dict[key]
+        except TypeError:
+            pass
+        # Attempt to look up as an item
+        try:
+            item_key = self.key(key)
+            if item_key in self._dict:
+                return self._dict[item_key]
+        except TypeError:
+            pass
         raise KeyError(key)
